@@ -116,7 +116,7 @@ Read(k, form) ==
     /\ rep[k] # NoRep /\ form \in A!FormsOf(AbsW[k])
     /\ (~rep[k].lref /\ form \in A!ByValForms) => payload # "moveonly"
     /\ LET r == rep[k]
-           byval == ~r.lref /\ form \in A!ByValForms
+           byval == ~r.lref /\ form \in (A!ByValForms \ {"crget"})     \* get() const & on a const rvalue: a reference to the member
        IN Step("Read", k, [form |-> form], A!Res("any", "na", <<A!ReadItem(AbsW[k], 1, form)>>),
                XR(<<[t |-> IF r.lref THEN r.at ELSE IF byval THEN "value" ELSE "self", v |-> Val(r.at)]>>, IF byval THEN 1 ELSE 0, 0),
                mem, rep)
